@@ -8,25 +8,30 @@ from implutil import BACKENDS, SHORT, make_context, exc_name
 
 RULE = ('case = (training table, lattice spec in {default(Lindig), CbO, Sofia L_max=k, sub-lattice = subset of the CbO concepts '
         'keeping top and bottom, monotone}, test table over the same attributes (rows need not occur in training), backend of '
-        'the test context, key mode); or the many-valued twin (interval columns, IntervalPS / IntervalNumpyPS). The lattice is '
+        'the test context, key mode, object names of both contexts: fresh names, or - stream same-names - the traced context '
+        'carrying exactly the training object names (default names on both sides / explicit / spelled-out defaults) or a '
+        'permutation of them, with the same row count but different rows); or the many-valued twin (interval columns, IntervalPS / IntervalNumpyPS). The lattice is '
         'built by the real library and handed to the Lean side as data (extents, intents, children_dict in iteration order, '
         'supports, top). exhaustive over the tier scope, then seeded random tables up to 6x6; non-trivial = lattice with >= 3 '
         'concepts, mixed test table; distinct = distinct (train, lattice spec, test, backend, key mode)')
 EXHAUSTIVE = {
     'quick': 'all training tables n,m<=3 (682) x {default, CbO, every distinct Sofia-pruned lattice L_max=1..#concepts, all '
-             'sub-lattices keeping top+bottom when #concepts<=5 else 6 seeded ones, monotone} x test tables: m<=2: all tables '
+             'sub-lattices keeping top+bottom when #concepts<=4 else 4 seeded ones, monotone} x test tables: m<=2: all tables '
              'with <=3 rows; m=3: all tables with <=2 rows + all 3-row tables with strictly increasing rows + the table of all '
-             '8 rows; key mode and test backend rotate over the enumeration (both key modes for every lattice); MV: all 1-column '
+             '8 rows; same-names: every training table x {default, CbO, first Sofia, 2 sub-lattices} x complement, reversed rows and '
+             'all (n*m<=6) / 14 seeded same-shape tables, 5 name variants rotating (both "default/default" and "same explicit" '
+             'for the first two); key mode and test backend rotate over the enumeration (both key modes for every lattice); MV: all 1-column '
              'interval training contexts with <=3 rows over a 3-point grid x sub-lattices x all test contexts with <=2 rows',
     'thorough': 'all training tables n,m<=3 x all lattice variants (ALL sub-lattices keeping top+bottom, up to 8 concepts) x ALL '
                 'test tables with <=3 rows + the table of all rows (both key modes for <=2 rows, rotating for 3 rows; backend '
                 'rotates); training tables with n*m<=12 (n,m<=4) x lattice variants x all test tables with <=2 rows (m<=3) / 12 '
-                'seeded ones (m=4) + the table of all rows; MV: all 1-column interval contexts <=3 rows and 2-column <=2 rows'}
+                'seeded ones (m=4) + the table of all rows; same-names: all lattice variants x 40 same-shape tables; MV: all 1-column interval contexts <=3 rows and 2-column <=2 rows'}
 EXPLANATION = ('the two returned dictionaries are pinned uniquely by the property; the IMPLEMENTATION\'s dictionaries are compared '
                'with the Lean-side specification (Spec.describing / Spec.minimalDescribing evaluated by the driver), and with the '
                'code-shaped model; theorems Fca.C17.* prove model = spec for every list of genuine concepts with its true cover '
                'relation (hypotheses are re-checked by the driver on every case: "hyp")')
-ASSUMPTIONS = ['object names of the traced context pairwise distinct (dictionary keys)',
+ASSUMPTIONS = ['object names of the traced context pairwise distinct (dictionary keys); they may coincide with the training '
+               'object names - names are not identity, the rows of the traced context decide',
                'the lattice object was produced by the library from one training context (its concepts/children_dict are read '
                'from the real object and checked against IsLatticeOf by the driver on every case)',
                'use_generators=False (the generator mode belongs to C20)',
@@ -41,16 +46,18 @@ NAMES = ['o%d' % (i ^ 3) for i in range(128)]
 
 # ----------------------------------------------------------------------------------------------- lattices
 @functools.lru_cache(maxsize=4096)
-def _train_ctx(rows_key):
+def _train_ctx(rows_key, tnames=None):
     from fcapy.context import FormalContext
-    return FormalContext(data=[[bool(v) for v in r] for r in rows_key])
+    return FormalContext(data=[[bool(v) for v in r] for r in rows_key],
+                         object_names=None if tnames is None else list(tnames))
 
 
 @functools.lru_cache(maxsize=8192)
-def _lattice(rows_key, spec):
-    """spec: ('default',) | ('CbO',) | ('Sofia', L_max) | ('sub', mask) | ('mono',)"""
+def _lattice(rows_key, spec, tnames=None):
+    """spec: ('default',) | ('CbO',) | ('Sofia', L_max) | ('sub', mask) | ('mono',); tnames = training object names
+    (None = the library's default names '0','1',..)"""
     from fcapy.lattice import ConceptLattice
-    K = _train_ctx(rows_key)
+    K = _train_ctx(rows_key, tnames)
     if spec[0] == 'default':
         return ConceptLattice.from_context(K)
     if spec[0] == 'CbO':
@@ -60,7 +67,7 @@ def _lattice(rows_key, spec):
     if spec[0] == 'mono':
         return ConceptLattice.from_context(K, is_monotone=True)
     if spec[0] == 'sub':
-        full = _lattice(rows_key, ('CbO',))
+        full = _lattice(rows_key, ('CbO',), tnames)
         keep = [c for i, c in enumerate(full) if (spec[1] >> i) & 1]
         return ConceptLattice(keep)
     raise ValueError(spec)
@@ -75,15 +82,15 @@ def _mv_ctx(data, ps, names=None):
 
 
 @functools.lru_cache(maxsize=4096)
-def _mv_lattice(data_key, ps, spec):
+def _mv_lattice(data_key, ps, spec, tnames=None):
     from fcapy.lattice import ConceptLattice
-    K = _mv_ctx([list(r) for r in data_key], ps)
+    K = _mv_ctx([list(r) for r in data_key], ps, None if tnames is None else list(tnames))
     if spec[0] == 'CbO':
         return ConceptLattice.from_context(K)
     if spec[0] == 'Sofia':
         return ConceptLattice.from_context(K, algo='Sofia', L_max=spec[1])
     if spec[0] == 'sub':
-        full = _mv_lattice(data_key, ps, ('CbO',))
+        full = _mv_lattice(data_key, ps, ('CbO',), tnames)
         keep = [c for i, c in enumerate(full) if (spec[1] >> i) & 1]
         return ConceptLattice(keep)
     raise ValueError(spec)
@@ -94,9 +101,16 @@ def _key(rows):
 
 
 def _get_lattice(c):
+    tn = c.get('tnames')
+    tn = None if tn is None else tuple(tn)
     if c['kind'] == 'mv':
-        return _mv_lattice(_key(c['train']), c['ps'], tuple(c['lat']))
-    return _lattice(_key(c['train']), tuple(c['lat']))
+        return _mv_lattice(_key(c['train']), c['ps'], tuple(c['lat']), tn)
+    return _lattice(_key(c['train']), tuple(c['lat']), tn)
+
+
+def _test_names(c):
+    """object names of the traced context as the library sees them (None in the case = default names)"""
+    return [str(i) for i in range(len(c['test']))] if c.get('names') is None else list(c['names'])
 
 
 def _lat_data(L):
@@ -220,6 +234,84 @@ def _mv_cases(train, specs, tests, ps, stream, counter):
                        useidx=bool(counter[0] & 1), names=NAMES[:len(test)])
 
 
+def _name_variant(v, n):
+    """(training names, traced names): the traced context carries the SAME object names as the training context
+    (names are not identity: its rows differ), or a permutation of them"""
+    dflt = [str(i) for i in range(n)]
+    if v == 0:
+        return None, None                           # default names '0','1',.. on both sides
+    if v == 1:
+        return NAMES[:n], NAMES[:n]                 # the same explicit names on both sides
+    if v == 2:
+        return None, dflt                           # default names in training, spelled out in the traced context
+    if v == 3:
+        return NAMES[:n], NAMES[:n][::-1]           # permuted names
+    return dflt, None                               # explicit '0','1',.. in training, default in the traced context
+
+
+def _same_shape_tests(rows, rng, limit):
+    """tables with the row count and width of `rows` but different rows"""
+    n, m = len(rows), len(rows[0])
+    out = [[[1 - v for v in r] for r in rows]]                         # complement
+    if n > 1 and rows[::-1] != rows:
+        out.append([list(r) for r in rows[::-1]])                      # same rows, other objects
+    if n * m <= 6 or limit is None:
+        for t in G.all_tables(n, m):
+            if t != rows and t not in out:
+                out.append(t)
+        if limit is not None and len(out) > limit:
+            out = out[:2] + rng.sample(out[2:], limit - 2)
+        return out
+    seen = {_key(t) for t in out} | {_key(rows)}
+    while len(out) < limit:
+        t = [[int(rng.random() < 0.5) for _ in range(m)] for _ in range(n)]
+        if _key(t) not in seen:
+            seen.add(_key(t))
+            out.append(t)
+    return out
+
+
+def _same_name_cases(rows, specs, tests, stream, counter):
+    n = len(rows)
+    for spec in specs:
+        if spec[0] == 'mono':
+            continue
+        for t_i, test in enumerate(tests):
+            variants = (0, 1) if t_i < 2 else (counter[0] % 5,)
+            for v in variants:
+                counter[0] += 1
+                tn, nm = _name_variant(v, n)
+                yield dict(stream=stream, kind='formal', train=rows, lat=list(spec), test=test, tnames=tn, names=nm,
+                           be=BACKENDS[counter[0] % 3], useidx=bool((counter[0] // 3) & 1))
+
+
+def _same_name_mv_cases(train, specs, tests, ps, stream, counter):
+    n = len(train)
+    for spec in specs:
+        for t_i, test in enumerate(tests):
+            variants = (0, 1) if t_i < 2 else (counter[0] % 5,)
+            for v in variants:
+                counter[0] += 1
+                tn, nm = _name_variant(v, n)
+                yield dict(stream=stream, kind='mv', ps=ps, train=train, lat=list(spec), test=test, tnames=tn, names=nm,
+                           useidx=bool(counter[0] & 1))
+
+
+def _pick_specs(specs, k_sub):
+    """default, CbO, the first Sofia-pruned lattice and the first k_sub sub-lattices"""
+    out, nsof, nsub = [], 0, 0
+    for sp in specs:
+        if sp[0] in ('default', 'CbO'):
+            out.append(sp)
+        elif sp[0] == 'Sofia' and nsof < 1:
+            nsof += 1
+            out.append(sp)
+        elif sp[0] == 'sub' and nsub < k_sub:
+            nsub += 1
+            out.append(sp)
+    return out
+
+
 def _corpus():
     import glob
     import json
@@ -243,8 +335,11 @@ def gen(tier, seed, boost=False):
         m = len(rows[0])
         if m not in tests_by_m:
             tests_by_m[m] = list(_tests_all(m) if thorough else _tests_quick(m))
-        specs = _lattice_specs(rows, rng, 8 if thorough else 5, 6)
+        specs = _lattice_specs(rows, rng, 8 if thorough else 4, 4)
         yield from _formal_cases(rows, specs, tests_by_m[m], 'exhaustive', (2 ** m + 4 ** m) if thorough else 4, counter)
+        # the traced context carries the object names of the training context (same row count), other rows
+        yield from _same_name_cases(rows, specs if thorough else _pick_specs(specs, 2),
+                                    _same_shape_tests(rows, rng, 40 if thorough else 14), 'same-names', counter)
     if thorough:
         for rows in G.tables_upto(4, 4, cells=12):
             if len(rows) <= 3 and len(rows[0]) <= 3:
@@ -261,6 +356,10 @@ def gen(tier, seed, boost=False):
         for ps in ('py', 'np'):
             specs = _mv_specs(train, ps, rng, None if thorough else 4)
             yield from _mv_cases(train, specs, mv_tests1, ps, 'exhaustive-mv', counter)
+            same = [t for t in _mv_tables(1, len(train), MV_CELLS) if len(t) == len(train) and t != train]
+            if len(same) > (40 if thorough else 8):
+                same = rng.sample(same, 40 if thorough else 8)
+            yield from _same_name_mv_cases(train, specs[:3], same, ps, 'same-names-mv', counter)
     if thorough:
         cells2 = [0, 2, [0, 1], [1, 2]]
         mv_tests2 = list(_mv_tables(2, 2, cells2))
@@ -284,13 +383,18 @@ def gen(tier, seed, boost=False):
             tests.append(t)
         tests.append([list(r) for r in rows])       # the training context itself
         yield from _formal_cases(rows, specs, tests, 'random', 1, counter)
+        yield from _same_name_cases(rows, _pick_specs(specs, 1), _same_shape_tests(rows, rng, 4), 'random-same-names', counter)
         if _ % 3 == 0:
             ncols = rng.randint(1, 3)
             cell = lambda: (lambda a, b: a if a == b else [min(a, b), max(a, b)])(rng.randint(0, 4), rng.randint(0, 4))
             train = [[cell() for _j in range(ncols)] for _i in range(rng.randint(1, 5))]
             mvt = [[[cell() for _j in range(ncols)] for _i in range(rng.randint(1, 5))] for _k in range(3)] + [train]
             for ps in ('py', 'np'):
-                yield from _mv_cases(train, _mv_specs(train, ps, rng, 3), mvt, ps, 'random-mv', counter)
+                sp = _mv_specs(train, ps, rng, 3)
+                yield from _mv_cases(train, sp, mvt, ps, 'random-mv', counter)
+                same = [[[cell() for _j in range(ncols)] for _i in range(len(train))] for _k in range(3)]
+                yield from _same_name_mv_cases(train, sp[:2], [t for t in same if t != train], ps,
+                                               'random-same-names-mv', counter)
 
 
 # ----------------------------------------------------------------------------------------------- implementation side
@@ -305,9 +409,9 @@ def _canon_dict(d):
 def impl(c):
     L = _get_lattice(c)
     if c['kind'] == 'mv':
-        ctx = _mv_ctx(c['test'], c['ps'], list(c['names']))
+        ctx = _mv_ctx(c['test'], c['ps'], None if c.get('names') is None else list(c['names']))
     else:
-        ctx = make_context(c['test'], c['be'], c['names'])
+        ctx = make_context(c['test'], c['be'], c.get('names'))
     try:
         r = L.trace_context(ctx, use_object_indices=c['useidx'])
         if len(r) != 2:
@@ -333,11 +437,11 @@ def requests(c):
             ints.append([[int(p), None if v is None else _interval(v)] for p, v in L[i].intent_i.items()])
         ncols = len(c['test'][0])
         cols = [[_interval(row[j]) for row in c['test']] for j in range(ncols)]
-        d.update(op='C17.tracemv', ints=ints, cols=cols, n=len(c['test']), names=c['names'], useidx=c['useidx'])
+        d.update(op='C17.tracemv', ints=ints, cols=cols, n=len(c['test']), names=_test_names(c), useidx=c['useidx'])
         return [d]
     d.update(op='C17.trace', be=SHORT[c['be']], trows=c['train'], tw=len(c['train'][0]),
              ints=[[int(a) for a in L[i].intent_i] for i in range(n)],
-             rows=c['test'], w=len(c['test'][0]), names=c['names'], useidx=c['useidx'])
+             rows=c['test'], w=len(c['test'][0]), names=_test_names(c), useidx=c['useidx'])
     return [d]
 
 
@@ -389,7 +493,7 @@ def nontrivial(c):
 
 
 def key(c):
-    return [c['kind'], c.get('ps'), c['train'], c['lat'], c['test'], c.get('be'), c['useidx']]
+    return [c['kind'], c.get('ps'), c['train'], c['lat'], c['test'], c.get('be'), c['useidx'], c.get('tnames'), c.get('names')]
 
 
 def branch(c, io, rep):
@@ -399,6 +503,11 @@ def branch(c, io, rep):
         out.append('be:' + SHORT[c['be']])
     else:
         out.append('ps:' + c['ps'])
+    tn = [str(i) for i in range(len(c['train']))] if c.get('tnames') is None else list(c['tnames'])
+    nm = _test_names(c)
+    out.append('objnames:' + ('same-as-training' if nm == tn else 'permuted-training' if sorted(nm) == sorted(tn)
+                              else 'fresh')
+               + (':default' if c.get('names') is None else ''))
     if c['lat'][0] != 'mono':
         out.append('hyp:' + str(r.get('hyp')))
         if 'traced' in io:
@@ -423,8 +532,20 @@ def shrink(c):
         for i in range(len(test)):
             d = dict(c)
             d['test'] = test[:i] + test[i + 1:]
-            d['names'] = c['names'][:len(d['test'])]
+            d['names'] = None if c.get('names') is None else c['names'][:len(d['test'])]
             yield d
+            if c.get('names') is not None and c.get('tnames') is not None and len(c['train']) == len(test) \
+                    and c['kind'] == 'formal' and c['lat'][0] in ('default', 'CbO'):
+                d = dict(d)                         # drop the same object on both sides (keeps the names aligned)
+                d['train'] = c['train'][:i] + c['train'][i + 1:]
+                d['tnames'] = c['tnames'][:i] + c['tnames'][i + 1:]
+                d['names'] = c['names'][:i] + c['names'][i + 1:]
+                yield d
+            elif c.get('names') is None and c.get('tnames') is None and len(c['train']) == len(test) \
+                    and c['kind'] == 'formal' and c['lat'][0] in ('default', 'CbO'):
+                d = dict(d)
+                d['train'] = c['train'][:i] + c['train'][i + 1:]
+                yield d
     if c['kind'] == 'formal':
         for i in range(len(test)):
             for j in range(len(test[0])):
@@ -439,6 +560,8 @@ def shrink(c):
                 for i in range(len(train)):
                     d = dict(c)
                     d['train'] = train[:i] + train[i + 1:]
+                    if c.get('tnames') is not None:
+                        d['tnames'] = c['tnames'][:i] + c['tnames'][i + 1:]
                     yield d
             for i in range(len(train)):
                 for j in range(len(train[0])):
